@@ -173,10 +173,15 @@ class Ctx:
 
     # ---------------------------------------------------------------- TLC
     def tlc(self, module, cfg, workers=None, timeout=900, extra=None, deadlock=None, simulate=None, depth=None,
-            seed=None, jvm=None, record=True, label=None, files=None):
+            seed=None, jvm=None, record=True, label=None, files=None, private=False):
         """Run TLC on spec/<module>.tla with spec/<cfg> inside the scratch copy of the spec dir."""
+        specdir = self.specdir
+        if private:
+            specdir = tempfile.mkdtemp(prefix="spec-", dir=self.scratch)
+            os.rmdir(specdir)
+            shutil.copytree(self.specdir, specdir)
         for src, dst in (files or {}).items():
-            shutil.copy(src, os.path.join(self.specdir, dst))
+            shutil.copy(src, os.path.join(specdir, dst))
         md = tempfile.mkdtemp(prefix="md-", dir=self.scratch)
         cmd = ["timeout", str(timeout), "java", "-XX:+UseParallelGC"]
         cmd += jvm or []
@@ -193,12 +198,15 @@ class Ctx:
         cmd += extra or []
         cmd += [module + ".tla"]
         t = time.time()
-        p = subprocess.run(cmd, cwd=self.specdir, capture_output=True, text=True)
+        p = subprocess.run(cmd, cwd=specdir, capture_output=True, text=True)
         out = p.stdout + p.stderr
         shutil.rmtree(md, ignore_errors=True)
-        for f in os.listdir(self.specdir):
-            if "_TTrace_" in f:
-                os.unlink(os.path.join(self.specdir, f))
+        if private:
+            shutil.rmtree(specdir, ignore_errors=True)
+        else:
+            for f in os.listdir(self.specdir):
+                if "_TTrace_" in f:
+                    os.unlink(os.path.join(self.specdir, f))
         r = TlcResult(p.returncode, out)
         r.wall = time.time() - t
         r.cmd = " ".join(cmd[2:])
